@@ -234,6 +234,14 @@ impl Gen {
             83 => format!("(sh (parget {} {k}))", self.rng.below(5)),
             84 => format!("(sh (find {k}))"),
             85..=86 => "(locks)".into(),
+            // a multi-borrow through a random public entry point on a random `parent_mut()`
+            87..=88 => {
+                let via = *self.rng.pick(&["reg", "regp", "tup", "st", "stp", "sttup"]);
+                let dist = if via.starts_with("st") { 0 } else { self.rng.below(4) };
+                let n = self.rng.range(2, 3);
+                let ks: Vec<u64> = (0..n).map(|_| self.rng.below(4)).collect();
+                format!("(ex (multiv {via} {dist} {} {}))", nats(ks), self.rng.range(1, 3))
+            }
             _ => format!("(ex {})", self.stmt(0)),
         }
     }
@@ -293,7 +301,10 @@ fn main() {
 
     // 2. multi-borrow: every tuple of arity 2..8 over 2 types, 2..4 over 4 types, a fixed set over 8 types,
     //    each with every subset of the universe present (sampled for 8 types), flat and split over two scopes
-    let multi_case1 = |keys: &[u64], present: &[u64], split: bool, panicking: bool| -> Vec<String> {
+    //    and through EVERY public entry point: `multi` / `multip` = StateRegistry::try_get_multiple_mut / get_multiple_mut
+    //    (sites multi-u*), `tup` = the trait method MultiStateTuple::try_get_mut called directly (sites multi-trait-u*),
+    //    `st` / `stp` / `sttup` = the same three on the `State` wrapper (sites multi-state-u*)
+    let multi_case1 = |keys: &[u64], present: &[u64], split: bool, via: &str| -> Vec<String> {
         let mut ops = vec![];
         if split {
             for &k in present.iter().filter(|k| *k % 2 == 0) { ops.push(ex(&format!("(ins {k} {})", 10 + k))); }
@@ -304,11 +315,17 @@ fn main() {
         } else {
             for &k in present { ops.push(ex(&format!("(ins {k} {})", 10 + k))); }
         }
-        ops.push(ex(&format!("({} {} 1)", if panicking { "multip" } else { "multi" }, nats(keys.iter().cloned()))));
+        ops.push(ex(&match via {
+            "multi" | "multip" => format!("({via} {} 1)", nats(keys.iter().cloned())),
+            _ => format!("(multiv {via} 0 {} 1)", nats(keys.iter().cloned())),
+        }));
         ops.push("(locks)".into());
         ops
     };
-    for (site, uni, max_arity) in [("multi-u2", 2u64, 8usize), ("multi-u4", 4, 4)] {
+    // (entry point, site prefix, all subsets of the universe present?)
+    let routes: [(&str, &str, bool); 6] = [("multi", "multi", true), ("multip", "multi", true), ("tup", "multi-trait", true),
+        ("st", "multi-state", false), ("stp", "multi-state", false), ("sttup", "multi-state", false)];
+    for (uname, uni, max_arity) in [("u2", 2u64, 8usize), ("u4", 4, 4)] {
         for arity in 2..=max_arity {
             let alpha: Vec<String> = (0..uni).map(|k| k.to_string()).collect();
             let mut tuples = vec![];
@@ -316,9 +333,13 @@ fn main() {
             for t in tuples {
                 for mask in 0..(1u64 << uni) {
                     let present: Vec<u64> = (0..uni).filter(|k| mask >> k & 1 == 1).collect();
-                    for pk in [false, true] {
-                        emit(site, multi_case1(&t, &present, false, pk));
-                        if mask + 1 == 1 << uni || a.thorough { emit(site, multi_case1(&t, &present, true, pk)); }
+                    let full = mask + 1 == 1 << uni;
+                    for (via, prefix, all_masks) in routes {
+                        // the State wrapper over 4 types: everything present or exactly one type missing
+                        if !all_masks && uni > 2 && !a.thorough && present.len() + 1 < uni as usize { continue; }
+                        let site = format!("{prefix}-{uname}");
+                        emit(&site, multi_case1(&t, &present, false, via));
+                        if full || a.thorough { emit(&site, multi_case1(&t, &present, true, via)); }
                     }
                 }
             }
@@ -327,19 +348,55 @@ fn main() {
     let mut rng = Sm::new(a.seed ^ 0x5151);
     for t in U8_TUPLES {
         let all: Vec<u64> = (0..8).collect();
-        for pk in [false, true] {
-            emit("multi-u8", multi_case1(t, &all, false, pk));
-            emit("multi-u8", multi_case1(t, &all, true, pk));
+        for (via, prefix, _) in routes {
+            let site = format!("{prefix}-u8");
+            emit(&site, multi_case1(t, &all, false, via));
+            emit(&site, multi_case1(t, &all, true, via));
             for miss in 0..8u64 {
                 let present: Vec<u64> = (0..8).filter(|k| *k != miss).collect();
-                emit("multi-u8", multi_case1(t, &present, false, pk));
+                emit(&site, multi_case1(t, &present, false, via));
             }
         }
         for _ in 0..(if a.thorough { 40 } else { 4 }) {
             let mask = rng.below(256);
             let present: Vec<u64> = (0..8).filter(|k| mask >> k & 1 == 1).collect();
-            let (sp, pk) = (rng.chance(1, 2), rng.chance(1, 2));
-            emit("multi-u8", multi_case1(t, &present, sp, pk));
+            let sp = rng.chance(1, 2);
+            let (via, prefix, _) = *rng.pick(&routes);
+            emit(&format!("{prefix}-u8"), multi_case1(t, &present, sp, via));
+        }
+    }
+
+    // 2b. the entry points on a registry reached by `parent_mut()`: three scopes, five layouts (shadowing, types only
+    //     below / only above the addressed registry, empty scopes), every tuple of arity 2..3 (thorough: ..4) over 4
+    //     types, each registry entry point, every distance 0..3 (3 = no such parent)
+    {
+        let layouts: [[&[u64]; 3]; 5] = [
+            [&[0, 1, 2, 3], &[0], &[1]],
+            [&[0], &[1, 2], &[3]],
+            [&[], &[0, 1], &[0, 1, 2, 3]],
+            [&[0, 1], &[], &[]],
+            [&[2, 3], &[0, 1], &[0]],
+        ];
+        let alpha: Vec<String> = (0..4).map(|k| k.to_string()).collect();
+        for arity in 2..=(if a.thorough { 4 } else { 3 }) {
+            let mut tuples = vec![];
+            product(&alpha, arity, |t| tuples.push(t.iter().map(|x| x.parse::<u64>().unwrap()).collect::<Vec<_>>()));
+            for t in &tuples {
+                for lay in &layouts {
+                    for via in ["reg", "regp", "tup"] {
+                        for dist in 0..=3u64 {
+                            let mut ops = vec![];
+                            for (lvl, scope) in lay.iter().enumerate() {
+                                if lvl > 0 { ops.push(ex("(push)")); }
+                                for &k in scope.iter() { ops.push(ex(&format!("(ins {k} {})", 10 * lvl as u64 + k + 1))); }
+                            }
+                            ops.push(ex(&format!("(multiv {via} {dist} {} 1)", nats(t.iter().cloned()))));
+                            ops.push("(locks)".into());
+                            emit("multi-parent", ops);
+                        }
+                    }
+                }
+            }
         }
     }
 
